@@ -19,7 +19,8 @@
     rule given no limit; [errs]/[actual]: the same with the limit [max]. *)
 From Coq Require Import List ZArith Bool String.
 From ApiFu Require Val.Values Val.CoerceModel Val.CoerceSpec Val.CoerceCheck.
-From ApiFu Require Import Base.Sexp Cost.CostModel Cost.CostSpec Cost.CostArgs.
+From ApiFu Require Import Base.Sexp Cost.CostModel Cost.CostSpec Cost.CostArgs Cost.CostTrace.
+From ApiFu Require Cost.CostArgsProofs.
 Import ListNotations.
 Open Scope string_scope.
 Open Scope Z_scope.
@@ -250,32 +251,43 @@ Definition lit_of_src (x : argsrc) : option Values.lit :=
   | SVar v => Some (Values.LVar v)
   end.
 
-(** [(a DEFAULT SRC)] / [(a DEFAULT SRC nn)]: default, source, non-null *)
-Definition dec_aform (s : sexp) : option (option vval * argsrc * bool) :=
+(** [(a DEFAULT SRC)] / [(a DEFAULT SRC FLAG)] / [(a DEFAULT SRC FLAG "name")]: default, source,
+    non-null ([FLAG] = nn), the argument's name (positional names 0, 1 when not given) *)
+Definition dec_aform (s : sexp) : option (option vval * argsrc * bool * option bytes) :=
   match tagged "a" s with
   | Some (d :: x :: rest) =>
       match dec_default d, dec_src x with
-      | Some dv, Some src => Some (dv, src, match rest with [] => false | _ => true end)
+      | Some dv, Some src =>
+          Some (dv, src,
+                match rest with f :: _ => is_sym "nn" f | [] => false end,
+                match rest with [_; SStr n] => Some n | _ => None end)
       | _, _ => None
       end
   | _ => None
   end.
 Definition is_aform (s : sexp) : bool := match tagged "a" s with Some _ => true | None => false end.
 
-Fixpoint aforms_args (i : nat) (l : list (option vval * argsrc * bool))
-  : list (Values.name * Values.in_def) * list (Values.name * Values.lit) :=
+Definition aform_name (i : nat) (o : option bytes) : bytes := match o with Some n => n | None => arg_name i end.
+
+Fixpoint aforms_args (i : nat) (l : list (option vval * argsrc * bool * option bytes))
+  : list (Values.name * Values.in_def) * list (Values.name * Values.lit) * list bytes :=
   match l with
-  | [] => ([], [])
-  | (dv, src, nn) :: r =>
-      let (ds, ls) := aforms_args (S i) r in
-      let ty := if nn then Values.StNonNull (Values.StNamed n_Int) else Values.StNamed n_Int in
-      ((arg_name i, {| Values.in_type := ty; Values.in_default := option_map gdefault dv |}) :: ds,
-       match lit_of_src src with Some lt => (arg_name i, lt) :: ls | None => ls end)
+  | [] => ([], [], [])
+  | (dv, src, nn, nm) :: r =>
+      match aforms_args (S i) r with
+      | (ds, ls, ns) =>
+          let ty := if nn then Values.StNonNull (Values.StNamed n_Int) else Values.StNamed n_Int in
+          let n := aform_name i nm in
+          ((n, {| Values.in_type := ty; Values.in_default := option_map gdefault dv |}) :: ds,
+           match lit_of_src src with Some lt => (n, lt) :: ls | None => ls end,
+           n :: ns)
+      end
   end.
 
-(** [ctx.Arguments[name]] as the harness' cost functions look at it *)
-Definition av (m : amap) (i : nat) : argval :=
-  match Values.aget (arg_name i) m with
+(** [ctx.Arguments[name]] as the harness' cost functions look at it; [ns]: the names of the
+    arguments in the order of the description *)
+Definition av (ns : list bytes) (m : amap) (i : nat) : argval :=
+  match Values.aget (nth i ns []) m with
   | None => AAbsent
   | Some (Values.GInt z) => AInt z
   | Some _ => ANull
@@ -285,20 +297,20 @@ Definition acost := ctxT -> amap -> option (fcost ctxT).
 Definition akonst (r m : Z) : acost := fun _ _ => Some {| fc_r := r; fc_m := m; fc_ctx := None |}.
 
 (** the cost functions of the Int-only forms, over the argument map (arguments named 0, 1) *)
-Definition old_cost (T : list Z) (t : string) (others : list sexp) : option (option acost) :=
+Definition old_cost (T : list Z) (ns : list bytes) (t : string) (others : list sexp) : option (option acost) :=
   if String.eqb t "const" then
     match others with [SZ r; SZ m] => Some (Some (akonst r m)) | _ => None end
   else if String.eqb t "direct" then
-    Some (Some (fun _ a => Some {| fc_r := int_or (av a 0) 1; fc_m := int_or (av a 1) 0; fc_ctx := None |}))
+    Some (Some (fun _ a => Some {| fc_r := int_or (av ns a 0) 1; fc_m := int_or (av ns a 1) 0; fc_ctx := None |}))
   else if String.eqb t "tbl" then
-    Some (Some (fun _ a => Some {| fc_r := nth_tbl T (int_or (av a 0) 0);
-                                   fc_m := match av a 1 with AInt j => nth_tbl T j | _ => 0 end;
+    Some (Some (fun _ a => Some {| fc_r := nth_tbl T (int_or (av ns a 0) 0);
+                                   fc_m := match av ns a 1 with AInt j => nth_tbl T j | _ => 0 end;
                                    fc_ctx := None |}))
   else if String.eqb t "setc" then
     match others with
     | [SZ r; SZ m] =>
         Some (Some (fun ctx a => Some {| fc_r := r; fc_m := m;
-                                         fc_ctx := match av a 0 with
+                                         fc_ctx := match av ns a 0 with
                                                    | AInt c => Some {| k_user := Some c; k_max_edge := k_max_edge ctx |}
                                                    | _ => None
                                                    end |}))
@@ -312,9 +324,9 @@ Definition old_cost (T : list Z) (t : string) (others : list sexp) : option (opt
     | _ => None
     end
   else if String.eqb t "req" then
-    Some (Some (fun _ a => Some {| fc_r := int_or (av a 0) 0; fc_m := 0; fc_ctx := None |}))
+    Some (Some (fun _ a => Some {| fc_r := int_or (av ns a 0) 0; fc_m := 0; fc_ctx := None |}))
   else if String.eqb t "conn" then
-    Some (Some (fun ctx a => Some (default_connection_cost (av a 0) (av a 1) ctx)))
+    Some (Some (fun ctx a => Some (default_connection_cost (av ns a 0) (av ns a 1) ctx)))
   else if String.eqb t "edges" then Some (Some (fun ctx _ => edges_cost ctx))
   else None.
 
@@ -387,7 +399,7 @@ Definition dec_garg (s : sexp) : option (Values.name * Values.lit) :=
 Definition is_gen (s : sexp) : bool := match tagged "gen" s with Some _ => true | None => false end.
 
 Definition afield_of_cfd (T : list Z) (s : sexp) : option (afield ctxT) :=
-  if is_sym "nocost" s then Some {| af_argdefs := []; af_args := []; af_cost := None |}
+  if is_sym "nocost" s then Some {| af_name := []; af_argdefs := []; af_args := []; af_cost := None |}
   else
     match untag s with
     | Some (t, args) =>
@@ -397,7 +409,7 @@ Definition afield_of_cfd (T : list Z) (s : sexp) : option (afield ctxT) :=
               match map_opt CoerceCheck.dec_indef ads, map_opt dec_garg gas,
                     as_option (fun x => match x with SStr n => Some n | _ => None end) sc with
               | Some argdefs, Some gargs, Some setc =>
-                  Some {| af_argdefs := argdefs; af_args := gargs; af_cost := Some (gen_cost T r m setc) |}
+                  Some {| af_name := []; af_argdefs := argdefs; af_args := gargs; af_cost := Some (gen_cost T r m setc) |}
               | _, _, _ => None
               end
           | _ => None
@@ -405,25 +417,37 @@ Definition afield_of_cfd (T : list Z) (s : sexp) : option (afield ctxT) :=
         else
           match map_opt dec_aform (filter is_aform args) with
           | Some afs =>
-              let (argdefs, lits) := aforms_args 0 afs in
-              match old_cost T t (filter (fun x => negb (is_aform x)) args) with
-              | Some c => Some {| af_argdefs := argdefs; af_args := lits; af_cost := c |}
-              | None => None
+              match aforms_args 0 afs with
+              | (argdefs, lits, ns) =>
+                  match old_cost T ns t (filter (fun x => negb (is_aform x)) args) with
+                  | Some c => Some {| af_name := []; af_argdefs := argdefs; af_args := lits; af_cost := c |}
+                  | None => None
+                  end
               end
           | None => None
           end
     | None => None
     end.
 
+(** [(named "Type.field" CFD)]: the description with the label of the field definition *)
+Definition cfd_core (s : sexp) : sexp := match tagged "named" s with Some [_; c] => c | _ => s end.
+Definition cfd_label (s : sexp) : bytes := match tagged "named" s with Some [SStr n; _] => n | _ => [] end.
+Definition named_afield (T : list Z) (s : sexp) : option (afield ctxT) :=
+  match afield_of_cfd T (cfd_core s) with
+  | Some f => Some {| af_name := cfd_label s; af_argdefs := af_argdefs f; af_args := af_args f; af_cost := af_cost f |}
+  | None => None
+  end.
+
 (** model side *)
 Definition dec_anode (T : list Z) : sexp -> option (anode ctxT) :=
   dec_tree (akind ctxT) (anode ctxT) ANode
-           (fun cfd => match afield_of_cfd T cfd with Some f => Some (AField f) | None => None end)
+           (fun cfd => match named_afield T cfd with Some f => Some (AField f) | None => None end)
            AOther (ANoDef true) (ANoDef false) ASpread.
 
 (** Spec side: [resolve_arg] for the Int-only forms, C05's reference coercion for [gen] *)
 Definition spec_kind (T : list Z) (E : Values.env) (coerced : list (bytes * vval))
-           (defs : list Values.vardef) (raw : list (Values.name * Values.jval)) (cfd : sexp) : option (kind ctxT) :=
+           (defs : list Values.vardef) (raw : list (Values.name * Values.jval)) (cfd0 : sexp) : option (kind ctxT) :=
+  let cfd := cfd_core cfd0 in
   if is_gen cfd then
     match afield_of_cfd T cfd with
     | Some f =>
@@ -460,7 +484,7 @@ Fixpoint sexp_exists (p : sexp -> bool) (s : sexp) {struct s} : bool :=
          end.
 Definition is_spread (s : sexp) : bool := match tagged "s" s with Some _ => true | None => false end.
 Definition is_field_with (p : sexp -> bool) (s : sexp) : bool :=
-  match tagged "f" s with Some (cfd :: _) => p cfd | _ => false end.
+  match tagged "f" s with Some (cfd :: _) => p (cfd_core cfd) | _ => false end.
 
 Definition dec_vardef (s : sexp) : option vardef :=
   match s with
@@ -670,6 +694,108 @@ Definition classes (route : string) (nops : nat) (has_op : bool) (body : list se
       (if (e0 =? 0) && has_multiplied_field ts && spread then ["multiplied-through-fragment"] else [])
   end.
 
+(** ** the calls the real cost functions received: [(calls ((NAME USER ARGS) ...))], ARGS = (map ...) *)
+Record obs_call := { oc_name : bytes; oc_user : option Z; oc_args : Values.gval }.
+Definition dec_call (s : sexp) : option obs_call :=
+  match s with
+  | SL [SStr n; u; a] =>
+      match as_option (fun x => match x with SZ z => Some z | _ => None end) u, CoerceCheck.dec_gval a with
+      | Some uo, Some g => Some {| oc_name := n; oc_user := uo; oc_args := g |}
+      | _, _ => None
+      end
+  | _ => None
+  end.
+
+Definition opt_Z_eqb (a b : option Z) : bool :=
+  match a, b with Some x, Some y => x =? y | None, None => true | _, _ => false end.
+
+Definition call_matches (c : call ctxT) (o : obs_call) : bool :=
+  bytes_eqb (af_name (c_field c)) (oc_name o) && opt_Z_eqb (k_user (c_ctx c)) (oc_user o)
+  && Values.gval_eqb (Values.GMap (c_args c)) (oc_args o).
+
+Fixpoint calls_match (l : list (call ctxT)) (o : list obs_call) : bool :=
+  match l, o with
+  | [], [] => true
+  | c :: l', x :: o' => call_matches c x && calls_match l' o'
+  | _, _ => false
+  end.
+
+(** the first field selection of a tree carrying a given label *)
+Fixpoint find_field (name : bytes) (n : anode ctxT) {struct n} : option (afield ctxT) :=
+  match n with
+  | ANode k kids =>
+      match (match k with AField f => if bytes_eqb (af_name f) name then Some f else None | _ => None end) with
+      | Some f => Some f
+      | None => (fix go (l : list (anode ctxT)) : option (afield ctxT) :=
+                   match l with
+                   | [] => None
+                   | x :: r => match find_field name x with Some f => Some f | None => go r end
+                   end) kids
+      end
+  end.
+Fixpoint find_field_in (name : bytes) (l : list (anode ctxT)) : option (afield ctxT) :=
+  match l with
+  | [] => None
+  | x :: r => match find_field name x with Some f => Some f | None => find_field_in name r end
+  end.
+
+(** Spec oracle on the observed calls: every argument map conforms to the declared argument types *)
+Definition call_conforms (E : Values.env) (trees : list (anode ctxT)) (o : obs_call) : bool :=
+  match find_field_in (oc_name o) trees, oc_args o with
+  | Some f, Values.GMap m => CoerceSpec.args_conform_b E (af_argdefs f) m
+  | _, _ => false
+  end.
+
+(** ** the hypotheses of the every-call theorems, evaluated on the request: for a document the REAL
+    validator accepted they must hold of every field selection reachable from the chosen operation
+    (this is the request side of [CostC04.document_bridge]) *)
+Fixpoint fields_of (n : anode ctxT) {struct n} : list (afield ctxT) :=
+  match n with
+  | ANode k kids =>
+      (match k with AField f => [f] | _ => [] end ++
+       (fix go (l : list (anode ctxT)) : list (afield ctxT) :=
+          match l with [] => [] | x :: r => fields_of x ++ go r end) kids)%list
+  end.
+Fixpoint spreads_of (n : anode ctxT) {struct n} : list bytes :=
+  match n with
+  | ANode k kids =>
+      (match k with ASpread x => [x] | _ => [] end ++
+       (fix go (l : list (anode ctxT)) : list bytes :=
+          match l with [] => [] | x :: r => spreads_of x ++ go r end) kids)%list
+  end.
+Fixpoint reach_frags (fuel : nat) (frs : list (bytes * anode ctxT)) (names seen : list bytes) : list bytes :=
+  match fuel with
+  | O => seen
+  | S f =>
+      match filter (fun x => negb (existsb (bytes_eqb x) seen)) names with
+      | [] => seen
+      | fresh =>
+          reach_frags f frs
+            (flat_map (fun x => match alookup_last ctxT frs x with Some d => spreads_of d | None => [] end) fresh)
+            (seen ++ fresh)%list
+      end
+  end.
+Definition reachable_fields (frs : list (bytes * anode ctxT)) (body : anode ctxT) : list (afield ctxT) :=
+  (fields_of body ++
+   flat_map (fun x => match alookup_last ctxT frs x with Some d => fields_of d | None => [] end)
+            (reach_frags (S (List.length frs)) frs (spreads_of body) []))%list.
+
+Definition field_facts (E : Values.env) (defs : list Values.vardef) (f : afield ctxT) : bool :=
+  negb (CoerceSpec.dup_names (map fst (af_args f)))
+  && forallb (fun al => CoerceSpec.lit_nodup (snd al)) (af_args f)
+  && negb (CoerceModel.has_dup (map fst (af_argdefs f)))
+  && forallb (fun ad => CoerceSpec.default_ok E (snd ad)) (af_argdefs f)
+  && CostArgsProofs.field_usage_ok ctxT E defs f.
+
+Definition request_facts (E : Values.env) (defs : list Values.vardef) (frs : list (bytes * anode ctxT)) (body : anode ctxT) : bool :=
+  CoerceSpec.env_ok E
+  && negb (CoerceModel.has_dup (map Values.vd_name defs))
+  && forallb (fun d => match Values.vd_default d with
+                       | Some l => CoerceSpec.lit_nodup l && match CoerceModel.lit_vars l with [] => true | _ => false end
+                       | None => true
+                       end) defs
+  && forallb (field_facts E defs) (reachable_fields frs body).
+
 Definition raw_name (x : option bytes * list vardef * sexp * list Values.vardef) : option bytes := fst (fst (fst x)).
 Definition raw_defs (x : option bytes * list vardef * sexp * list Values.vardef) : list vardef := snd (fst (fst x)).
 Definition raw_body (x : option bytes * list vardef * sexp * list Values.vardef) : sexp := snd (fst x).
@@ -726,13 +852,16 @@ Definition check (c : sexp) : sexp :=
               if negb (forallb in_intb (dr :: dm :: max :: T)) then v_bad "not-an-int"
               else
               let fuel := S (List.length afrs) in
-              let m := validate_cost_request ctxT E dt0 true fuel dc ctx0 aops afrs opname raw max in
-              let m0 := validate_cost_request ctxT E dt0 true fuel dc ctx0 aops afrs opname raw (-1) in
+              let m := fst (validate_cost_trace ctxT E dt0 true fuel dc ctx0 aops afrs opname raw max) in
+              let mt0 := validate_cost_trace ctxT E dt0 true fuel dc ctx0 aops afrs opname raw (-1) in
+              let m0 := fst mt0 in
+              let obs_calls := match field1 "calls" l with Some (SL cs) => map_opt dec_call cs | _ => None end in
+              let trees := (map (fun a => ao_body a) aops ++ map snd afrs)%list in
               let spec := spec_tree dc ops frs opname vars_err in
               (* classification of defect 18 (repaired): the observation is exactly what the code before
                  the repair computes, on a tree with a free field beneath an overflowed multiplier *)
-              let before := validate_cost_request ctxT E dt0 false fuel dc ctx0 aops afrs opname raw max in
-              let before0 := validate_cost_request ctxT E dt0 false fuel dc ctx0 aops afrs opname raw (-1) in
+              let before := fst (validate_cost_trace ctxT E dt0 false fuel dc ctx0 aops afrs opname raw max) in
+              let before0 := fst (validate_cost_trace ctxT E dt0 false fuel dc ctx0 aops afrs opname raw (-1)) in
               let is_defect18 :=
                 match spec, compare before before0 o with
                 | Some ts, None => zero_under_overflow ts
@@ -751,18 +880,41 @@ Definition check (c : sexp) : sexp :=
                   end
               | None =>
                   if negb (forallb conn_oracle conns) then v_oracle_fail "more-edges-than-multiplier" []
+                  else if (std =? 0) && match obs_calls with Some cs => negb (forallb (call_conforms E trees) cs) | None => false end
+                  then v_oracle_fail "cost-args-nonconforming" []
                   else
                   match compare m m0 o with
                   | Some v => v
                   | None =>
                       if negb (forallb conn_agrees conns) then v_mismatch "connection-edge-count" []
+                      else if (std =? 0) && match chosen_op ctxT aops opname with
+                                             | Some ao => negb (request_facts E (ao_vardefs ao) afrs (ao_body ao))
+                                             | None => false
+                                             end
+                      then v_mismatch "validated-document-violates-theorem-hypotheses" []
+                      else if match obs_calls, o with
+                              | Some cs, Obs _ _ _ _ => negb (calls_match (snd mt0) cs)
+                              | _, _ => false
+                              end
+                      then v_mismatch "cost-function-calls" [tag "model-calls" [SZ (Z.of_nat (List.length (snd mt0)))]]
                       else
                         let body := (map raw_body raws ++ frx)%list in
                         v_ok (classes route (List.length ops) (match chosen with Some _ => true | None => false end)
                                       body spec max o std
                               ++ (match conns with [] => [] | _ => ["connections"] end)
                               ++ (if existsb (sexp_exists (is_field_with is_gen)) body then ["list-or-object-argument"] else [])
-                              ++ (match xvars with [] => [] | _ => ["list-or-object-variable-value-given"] end))
+                              ++ (match xvars with [] => [] | _ => ["list-or-object-variable-value-given"] end)
+                              ++ (if (std =? 0) && match chosen_op ctxT aops opname with Some _ => true | None => false end
+                                  then ["theorem-hypotheses-hold"] else [])
+                              ++ (match field1 "timed" l with
+                                  | Some b => match as_bool b with Some true => ["time-based-connection"] | _ => [] end
+                                  | None => []
+                                  end)
+                              ++ (match obs_calls with
+                                  | Some [] => ["calls-compared"]
+                                  | Some _ => ["calls-compared"; "calls-nonempty"]
+                                  | None => []
+                                  end))
                   end
               end
           | _, _, _, _, _ => v_bad "decode-nodes"
